@@ -10,4 +10,5 @@ let table : (string * (z list -> z list)) list = [
   ("regex", run_regex);
   ("source", run_source);
   ("framing", run_framing);
+  ("times", run_times);
 ]
